@@ -81,6 +81,24 @@ class C08(Prop):
                 zsf = [float(-y) if rng.random() < 0.7 else y for y in ysf]
             yield {"stream": "pairs", "f": rng.choice(FUNCS), "level": rng.choice(ic.DYADIC_LEVELS[:9]), "ydtype": ydt, "zdtype": zdt,
                    "y": [str(Fraction(v)) for v in ysf], "z": [str(Fraction(v)) for v in zsf]}
+        for k in range(N // 12):
+            # the same container object evaluated, refilled in place and evaluated again (a preallocated buffer): the second
+            # result must be that of the current content
+            n = rng.randint(1, 8)
+            ydt = rng.choice(["list", "bool", "uint8", "int8", "int16", "int32", "uint32", "int64", "float64", "float32"])
+            top = 1 if ydt == "bool" else 100
+            y1 = [float(rng.randint(0, top)) for _ in range(n)]
+            y2 = [float(rng.randint(0, top)) for _ in range(n)]
+            zs = [float(rng.choice([a, b, rng.randint(0, top)])) for a, b in zip(y1, y2)]
+            yield {"stream": "reuse", "f": rng.choice(FUNCS), "level": rng.choice(ic.DYADIC_LEVELS[:9]), "ydtype": ydt,
+                   "y_first": [str(Fraction(v)) for v in y1], "y": [str(Fraction(v)) for v in y2], "z": [str(Fraction(v)) for v in zs]}
+        for k in range(N // 12):
+            # infinite observations / predictions (quantiles are defined on the extended reals): V = 1{y <= z} - level
+            n = rng.randint(1, 6)
+            vals = ["inf", "-inf", "0", "2.5", "-3", "inf"]
+            ys = [rng.choice(vals) for _ in range(n)]
+            zs = [y if rng.random() < 0.5 else rng.choice(vals) for y in ys]
+            yield {"stream": "inf", "f": rng.choice(["quantile", "median"]), "level": rng.choice(ic.DYADIC_LEVELS[:9]), "y": ys, "z": zs}
         M = 400 if tier == "quick" else 6000
         for k in range(M):
             n = rng.randint(1, 14)
@@ -90,6 +108,30 @@ class C08(Prop):
                    "y": [str(v) for v in ys], "w": None if ws is None else [str(v) for v in ws]}
 
     def impl(self, case):
+        if case["stream"] == "inf":
+            return call_ident([float(v) for v in case["y"]], [float(v) for v in case["z"]], case["f"], ic.level_float(case["level"]))
+        if case["stream"] == "reuse":
+            from model_diagnostics.calibration import identification_function
+
+            lv = ic.level_float(case["level"])
+            y1 = [float(Fraction(v)) for v in case["y_first"]]
+            y2 = [float(Fraction(v)) for v in case["y"]]
+            z = np.array([float(Fraction(v)) for v in case["z"]])
+            try:
+                if case["ydtype"] == "list":
+                    buf = list(y1)
+                    identification_function(buf, z, functional=case["f"], level=lv)
+                    buf[:] = y2
+                else:
+                    buf = np.array(y1).astype(case["ydtype"])
+                    identification_function(buf, z, functional=case["f"], level=lv)
+                    buf[:] = np.array(y2).astype(case["ydtype"])
+                second = identification_function(buf, z, functional=case["f"], level=lv)
+                fresh = identification_function(np.array(y2).astype(case["ydtype"]) if case["ydtype"] != "list" else list(y2), z,
+                                                functional=case["f"], level=lv)
+            except Exception as e:
+                return {"err": exc_class(e)}
+            return {"v": [float(t) for t in np.asarray(second, dtype=float)], "fresh": [float(t) for t in np.asarray(fresh, dtype=float)]}
         ys = [float(Fraction(v)) for v in case["y"]]
         lv = ic.level_float(case["level"]) if case["level"] not in ("0", "1", "-1", "1.5", "2") else float(case["level"])
         if case["stream"] == "pairs":
@@ -121,7 +163,7 @@ class C08(Prop):
         return sorted(p for p in pts if Fraction(float(p)) == p)
 
     def model_request(self, case):
-        if case["stream"] != "pairs":
+        if case["stream"] not in ("pairs", "reuse"):
             return None
         lv = case["level"]
         lve = Fraction(lv) if lv in ("0", "1", "-1", "1.5", "2") else ic.level_exact(lv)
@@ -140,7 +182,22 @@ class C08(Prop):
         return None
 
     def oracle(self, case, io):
-        if case["stream"] == "pairs":
+        if case["stream"] == "inf":
+            if "err" in io:
+                return f"valid input rejected with {io['err']}"
+            a = 0.5 if case["f"] == "median" else ic.level_float(case["level"])
+            for y, z, v in zip(case["y"], case["z"], io["v"]):
+                want = (1.0 if float(z) >= float(y) else 0.0) - a
+                if not abs(v - want) <= 1e-12:
+                    return f"V(y={y}, z={z}) = {v!r}, definition 1{{y <= z}} - level = {want!r}"
+            return None
+        if case["stream"] == "reuse":
+            if "err" in io:
+                return f"valid input rejected with {io['err']}"
+            if io["v"] != io["fresh"]:
+                return (f"the result for a container that was evaluated before and refilled in place ({io['v']}) differs from the result "
+                        f"for a fresh container with the same content ({io['fresh']})")
+        if case["stream"] in ("pairs", "reuse"):
             if "err" in io:
                 return None
             ys = [Fraction(v) for v in case["y"]]
@@ -195,13 +252,15 @@ class C08(Prop):
         return None
 
     def nontrivial(self, case, io):
-        if case["stream"] == "pairs":
+        if case["stream"] == "inf":
+            return any("inf" in v for v in case["y"] + case["z"])
+        if case["stream"] in ("pairs", "reuse"):
             ys, zs = case["y"], case.get("z", [])
             return len(ys) == len(zs) and any(a == b for a, b in zip(ys, zs)) and any(a != b for a, b in zip(ys, zs))
         return len(set(case["y"])) > 1
 
     def shrink(self, case):
-        if case["stream"] == "pairs" and len(case["y"]) == len(case["z"]) and len(case["y"]) > 1:
+        if case["stream"] in ("pairs", "inf") and len(case["y"]) == len(case["z"]) and len(case["y"]) > 1:
             for i in range(len(case["y"])):
                 yield {**case, "y": case["y"][:i] + case["y"][i + 1:], "z": case["z"][:i] + case["z"][i + 1:]}
         if case["stream"] == "sample" and len(case["y"]) > 1:
